@@ -23,6 +23,7 @@ def main() -> int:
     tier = a.tier or fw.tier_from_env()
     if tier not in ("quick", "thorough"):
         tier = "quick"
+    fw.CURRENT_TIER = tier
     seed = fw.seed_from_env()
     if a.replay:
         from . import replay
